@@ -170,11 +170,8 @@ class DecimalConverter(NullConverter):
 
     @classmethod
     def _decimal_to_xml(cls, py_value):
-        xml_value = str(py_value)
-        if 'E' in xml_value or 'e' in xml_value:
-            # no exp form allowed in xml
-            return cls._float_to_xml(float(py_value))
-        return xml_value
+        # no exp form allowed in xml; format 'f' is exact (a detour via float would lose digits)
+        return format(py_value, 'f')
 
     @classmethod
     def to_xml(cls, py_value):
@@ -190,7 +187,8 @@ class DecimalConverter(NullConverter):
             # All ·minimally conforming· processors ·must· support decimal numbers with a minimum of
             # 18 decimal digits (i.e., with a ·totalDigits· of 18).
             head, tail = xml_value.split('.')
-            tail = tail[:18 - len(head)]
+            # sign and leading zero of the integer part are no significant digits
+            tail = tail[:max(18 - len(head.lstrip('+-').lstrip('0')), 0)]
             if tail:
                 xml_value = f'{head}.{tail}'
             else:
